@@ -335,13 +335,33 @@ ESC_SITES = {
 }
 
 
+# recursive closures: the closure calls itself with `self(..)` and uses what it captured AFTER the recursive call returned
+def _rec(after, ret):
+    return [("if", ("bin", ">", V("d"), I(0)), [asg("r", ("selfcall", [("bin", "-", V("d"), I(1))]))] + after + [("return", ret)], None), ("return", V("cv"))]
+
+
+REC_SITES = {
+    "rec-read-after": _rec([], ("bin", "+", V("r"), V("cv"))),
+    "rec-modify-after": _rec([asg("cv", ("bin", "+", V("cv"), I(1)), None, ("modify",))], ("bin", "+", V("r"), V("cv"))),
+    "rec-twice": _rec([asg("r2", ("selfcall", [("bin", "-", V("d"), I(1))]))], ("bin", "+", ("bin", "+", V("r"), V("r2")), V("cv"))),
+    "rec-inner-closure-after": _rec([asg("g", fn([], "int", [("return", V("cv"))]))], ("bin", "+", V("r"), call("g"))),
+    "rec-read-before-and-after": [("if", ("bin", ">", V("d"), I(0)), [asg("t", V("cv")), asg("r", ("selfcall", [("bin", "-", V("d"), I(1))])),
+                                                                     ("return", ("bin", "+", ("bin", "+", V("t"), V("r")), V("cv")))], None),
+                                  ("return", V("cv"))],
+}
+
+
 def site_program(site, nesting, owner_kind):
     """closure created at `nesting` levels below the owner of cv; the owner assigns cv after creating the closure."""
     prefix, _, base = site.rpartition("+")
     esc = base in ESC_SITES
-    body = PREFIXES[prefix] + (ESC_SITES[base] if esc else site_bodies()[base])
-    clo = fn([], FN0 if esc else "int", body)
-    FN0_ = f"fn() -> {FN0}" if esc else FN0
+    rec = base in REC_SITES
+    body = PREFIXES[prefix] + (ESC_SITES[base] if esc else REC_SITES[base] if rec else site_bodies()[base])
+    clo = fn([("d", "int")] if rec else [], FN0 if esc else "int", body)
+    FN0_ = f"fn() -> {FN0}" if esc else ("fn(int) -> int" if rec else FN0)
+
+    def cc(name):
+        return call(name, I(2)) if rec else call(name)
     # wrap: nesting 1 = closure defined directly in the owner's scope; 2 = inside a function defined there; 3 = two levels
     if nesting == 1:
         make = [asg("cl", clo)]
@@ -356,7 +376,7 @@ def site_program(site, nesting, owner_kind):
                asg("k2", call("cl")), ("print", call("k2")), ("print", call("k1")), ("print", V("cv")),
                ("print", ("method", V("k1"), "is_closure", []))]
     else:
-        use = [("print", call("cl")), ("print", V("cv")), asg("cv", I(2)), ("print", call("cl")), ("print", V("cv")),
+        use = [("print", cc("cl")), ("print", V("cv")), asg("cv", I(2)), ("print", cc("cl")), ("print", V("cv")),
                ("print", ("method", V("cl"), "is_closure", []))]
     extra = [asg("lc", ("list", [V("p") if owner_kind != "module" else I(1), I(7)]), "[int...]"), asg("cs", ("str", "ab")),
              asg("cb", ("bool", True)), asg("cf", fn([("q", "int")], "int", [("return", ("bin", "+", V("q"), I(1)))]))]
@@ -370,8 +390,8 @@ def site_program(site, nesting, owner_kind):
                     asg("k2", call("e1")), ("print", call("k2")), ("print", call("k1")),
                     asg("e2", call("own", I(5))), asg("k3", call("e2")), ("print", call("k3")), ("print", call("k1")),
                     ("print", ("method", V("k1"), "is_closure", [])), ("print", ("str", "end"))]
-        return [asg("own", owner), asg("e1", call("own", I(1))), ("print", call("e1")), ("print", call("e1")),
-                asg("e2", call("own", I(5))), ("print", call("e2")), ("print", call("e1")),
+        return [asg("own", owner), asg("e1", call("own", I(1))), ("print", cc("e1")), ("print", cc("e1")),
+                asg("e2", call("own", I(5))), ("print", cc("e2")), ("print", cc("e1")),
                 ("print", ("method", V("e1"), "is_closure", [])), ("print", ("str", "end"))]
     if owner_kind == "module":
         return [asg("cv", I(1))] + extra + make + use + [("print", ("str", "end"))]
@@ -398,7 +418,8 @@ class C07(EHistCheck):
             "same matrix with the site preceded, inside the closure, by a shadowing local / a plain self-assignment / a modify / a block-local "
             "shadow of the captured name (so that inner closures created afterwards must bind the closure's own local); a third family in which "
             "the closure returns an inner closure (reading / modifying the name, created in a block, two levels deep) that is called only after "
-            "its creator has returned, from two executions of the creator, interleaved; "
+            "its creator has returned, from two executions of the creator, interleaved; a fourth family of closures that call themselves with self(..) and read / modify "
+            "what they captured, call themselves again or create an inner closure after the recursive call has returned; "
             "is_closure() is observed in every case.  Every template is also explored (one level shallower) with prelude, history and observers executed "
             "inside one function body, so that all variables are locals of a running function.")
     assumptions = ["the reference interpreter with explicit cells is the model", "functions are never printed"]
@@ -409,8 +430,9 @@ class C07(EHistCheck):
         sites = [("site", s, n, o) for s in site_bodies() for n in (1, 2, 3) for o in own]
         pre = [("site", f"{p}+{s}", n, o) for p in PREFIXES if p for s in site_bodies() for n in ((1, 2) if tier == "quick" else (1, 2, 3)) for o in own]
         escs = [("site", f"{p}+{s}" if p else s, n, o) for p in PREFIXES for s in ESC_SITES for n in (1, 2, 3) for o in own]
+        recs = [("site", s, n, o) for s in REC_SITES for n in (1, 2, 3) for o in own]
         return [("capture-site-matrix", sites), ("capture-site-matrix-after-shadow/self-assign/modify", pre),
-                ("inner-closure-escapes-its-creator", escs)] + ls
+                ("inner-closure-escapes-its-creator", escs), ("recursive-closures-using-captures-after-the-recursive-call", recs)] + ls
 
     def describe(self, case):
         if case[0] == "site":
